@@ -11,7 +11,7 @@ import z3
 
 from . import seqops
 from .core import PyRaise
-from .values import (BoundMethod, Closure, DictCell, EnumerateV, ExcV, MapCell, MapElem, ObjCell, SymKey, OldView, Opaque, RangeV,
+from .values import (BoundMethod, Closure, DictCell, EnumerateV, ExcV, MapCell, MapElem, ObjCell, RegionListCell, SymKey, OldView, Opaque, RangeV,
                      Ref, SeqCell, SeqV, SuperV, Sym, Unsupported, fpval, is_scalar, kind_of, mk, to_term)
 
 _CMP = {ast.Eq: "==", ast.NotEq: "!=", ast.Lt: "<", ast.LtE: "<=", ast.Gt: ">", ast.GtE: ">="}
@@ -681,8 +681,23 @@ class ExprMixin:
         if isinstance(base, OldView) and isinstance(self.old_heap.get(base.ref.addr), MapCell):
             cell = self.old_heap[base.ref.addr]
             return MapElem(base.ref, z3.simplify(self.map_key(cell, idx)), old=True)
+        if isinstance(base, OldView) and isinstance(self.old_heap.get(base.ref.addr), RegionListCell):
+            return MapElem(self.old_heap[base.ref.addr].region, z3.simplify(to_term(idx, "int")), old=True)
         if isinstance(base, Ref):
             cell = self.path.cell(base)
+            if isinstance(cell, RegionListCell):
+                # the list of all objects of a region in key order: Python's list indexing rules
+                if kind_of(idx) not in ("int", "bool"):
+                    raise PyRaise(ExcV(TypeError, ("list indices must be integers",)))
+                k = to_term(idx, "int")
+                if getattr(self, "spec_depth", 0) > 0 or getattr(self, "pure_depth", 0) > 0:
+                    return MapElem(cell.region, z3.simplify(k))
+                n = self.path.cell(cell.region).n
+                if self.path.decide(k < 0):
+                    k = k + n
+                if self.path.decide(z3.Or(k < 0, k >= n)):
+                    raise PyRaise(ExcV(IndexError, ("list index out of range",)))
+                return MapElem(cell.region, z3.simplify(k))
             if isinstance(cell, DictCell):
                 key = self.dict_key(cell, idx)
                 if key is _MISSING or key not in cell.d:
